@@ -55,7 +55,11 @@ static int getValues(double *val, int len, const char *ptr)
 		ptr += len;
 		++i;
 	}
-	return i;
+	/* nothing but white space may follow */
+	while (isspace(*ptr)) {
+		++ptr;
+	}
+	return *ptr ? MPT_ERROR(BadValue) : i;
 }
 /*!
  * \ingroup mptValues
